@@ -77,6 +77,16 @@ def replay(ck, data):
         return 1
     ck.ocaml_build()
     ck.harness_build([ck.prop.lower()])
+    if wire.startswith("N\t"):
+        # nested-flow case: the expectation (derived from the model's top-level run) is stored in the file
+        i = ck.impl([wire])[0]
+        f = i.split("\t")
+        exp = data.get("expected(status, harness-command log, watched variables, flag)")
+        print("expected:       " + str(exp))
+        print("implementation: " + i)
+        same = len(f) == 7 and exp is not None and [f[0], f[4], f[5], f[6]] == list(exp)
+        print("REPLAY: " + ("agree now" if same else "still disagree"))
+        return 0 if same else 1
     m, i = ck.model([wire])[0], ck.impl([wire])[0]
     print("model:          " + m)
     print("implementation: " + i)
@@ -430,11 +440,11 @@ def run(ck):
                  p, case, "boundary candidates for that log length: " + c + " ; un-halted: " + u, o)
 
     ck.coverage.update({
-        "evaluations": len(send) + len(t_cases),
+        "evaluations": len(send) + len(t_cases) + len(n_cases),
         "distinct_nontrivial": len(nontriv),
         "rule": "flag raised by the k-th command invocation for every k < 8 of every program of 1-3 lines over 3 shapes with one cyclic "
                 "command of 1-3 results over 5 results (%d base programs%s), for every k < %d of %d random programs of <= 14 lines "
-                "(50%% cyclic commands, on_error handlers), random '!' marks, flag preset before the run; thread mode: flag raised "
+                "(50%% cyclic commands, on_error handlers), random '!' marks, flag preset before the run; every command-raised case of the small family and half of the others also with env = None (the runner's default Env, flag raised through context.env.halt); nested flows with the real SDK (a function used as an `if` condition, eval, user aliases, failing commands reported to the SDK's on_error) raising the flag from inside or waiting for a second thread, both Env modes; thread mode: flag raised "
                 "after 0-3000 us while each invocation pauses 30 us; non-trivial = distinct case whose halted run made >= 2 invocations "
                 "before stopping" % (n_fam, "" if thorough else ", 3-line ones sampled by seed", 30 if thorough else 14, 20000 if thorough else 2500),
         "exhaustive": True,
